@@ -48,6 +48,22 @@ def psd_int(rng, batch, n, dtype, rank=None, shift=None, min_gap=0.05):
     return a
 
 
+def toeplitz_col(rng, shape, dtype, min_gap=0.05):
+    """First column of a diagonally dominant (PD) symmetric Toeplitz matrix whose eigenvalues are well separated
+    in every batch member (c*I and other degenerate spectra break single-vector Lanczos)."""
+    n = shape[-1]
+    for _ in range(200):
+        col = ri(rng, shape, 0, 2, dtype)
+        col[..., 0] = col[..., 0] + 2 * n
+        if n == 1 or not min_gap:
+            return col
+        idx = (torch.arange(n).unsqueeze(0) - torch.arange(n).unsqueeze(1)).abs()
+        ev = torch.linalg.eigvalsh(col[..., idx].double())
+        if float((ev[..., 1:] - ev[..., :-1]).min() / ev.max()) >= min_gap:
+            return col
+    return col
+
+
 def kron(a, b):
     """Batched Kronecker product from the definition (A⊗B)[i*p+k, j*q+l] = A[i,j] B[k,l]."""
     res = a.unsqueeze(-1).unsqueeze(-3) * b.unsqueeze(-2).unsqueeze(-4)
@@ -183,8 +199,7 @@ def instances(rng, dtype=torch.float64, batch=(), n=3, psd=False, depth=1, class
                                eye(n).expand(*batch, n, n).clone(), []), True)
     if not psd:
         add("Zero", lambda c: (ZeroLinearOperator(*batch, n, n, dtype=dtype), torch.zeros(*batch, n, n, dtype=dtype), []))
-    col = ri(rng, (*batch, n), 0, 2, dtype)
-    col[..., 0] = col[..., 0] + 2 * n  # diagonally dominant => PD
+    col = toeplitz_col(rng, (*batch, n), dtype)  # diagonally dominant => PD, separated spectrum
     add("Toeplitz", lambda c, col=col: (lambda t: (ToeplitzLinearOperator(t), toeplitz_dense(col), [t]))(c(col)), True)
     L = torch.tril(ri(rng, (*batch, n, n), -2, 2, dtype)) * (1 - eye(n)) + torch.diag_embed(ri(rng, (*batch, n), 1, 3, dtype))
     if not psd:
@@ -242,8 +257,7 @@ def instances(rng, dtype=torch.float64, batch=(), n=3, psd=False, depth=1, class
     add("BlockDiag", lambda c, a=Bl: (lambda t: (BlockDiagLinearOperator(DenseLinearOperator(t)), block_diag_dense(a), [t]))(c(a)), True)
     add("BlockInterleaved", lambda c, a=Bl: (lambda t: (BlockInterleavedLinearOperator(DenseLinearOperator(t)), block_interleaved_dense(a), [t]))(c(a)), True)
     add("SumBatch", lambda c, a=Bl: (lambda t: (SumBatchLinearOperator(DenseLinearOperator(t)), a.sum(-3), [t]))(c(a)), True)
-    colb = ri(rng, (*batch, 2, n), 0, 1, dtype)
-    colb[..., 0] = colb[..., 0] + 2 * n
+    colb = toeplitz_col(rng, (*batch, 2, n), dtype)
     add("BlockDiag(Toeplitz)", lambda c, a=colb: (lambda t: (BlockDiagLinearOperator(ToeplitzLinearOperator(t)), block_diag_dense(toeplitz_dense(a)), [t]))(c(a)), True)
     rep = (2,) if not batch else (2,) + (1,) * len(batch)
     add("BatchRepeat", lambda c, a=Apsd: (lambda t: (BatchRepeatLinearOperator(DenseLinearOperator(t), batch_repeat=torch.Size(rep)),
